@@ -39,6 +39,7 @@ struct Run
     int fault_mode = 0;
     unsigned opno = 0;
     bool nt = false;
+    uint32_t last_cp = 0;
     explicit Run(Ctx &c) : cx(c) {}
 };
 
@@ -403,7 +404,17 @@ static void run_history(Tape &t, Ctx &cx, uint64_t fail_at, int mode, uint64_t *
             break; }
         case 6: {
             uint32_t cp;
-            switch (t.u8() % 8)
+            uint32_t &last_cp = r.last_cp; // the code point appended before in this history
+            uint8_t cb = t.u8();
+            if (cb >= 240)
+            {
+                // the halves of a UTF-16 surrogate pair one after the other, the same code point again: the encoder may not look back
+                uint16_t w = t.u16();
+                if (last_cp >= 0xD800u && last_cp < 0xDC00u && (cb & 1)) { cp = 0xDC00u + w % 0x400u; }
+                else if (cb & 2) { cp = 0xD800u + w % 0x400u; }
+                else { cp = last_cp ? last_cp : 0xDC00u; }
+            }
+            else switch (cb % 8)
             {
             case 0: cp = 1 + t.u8() % 0x7F; break;
             case 1: cp = 0x80 + t.u16() % 0x780; break;
@@ -414,6 +425,7 @@ static void run_history(Tape &t, Ctx &cx, uint64_t fail_at, int mode, uint64_t *
             case 6: { static uint32_t const b[] = {0x7F, 0x80, 0x7FF, 0x800, 0xFFFF, 0x10000, 0x1FFFFF, 0x200000, 0x3FFFFFF, 0x4000000, 0x7FFFFFFF}; cp = b[t.u8() % 11]; break; }
             default: cp = 1 + t.u32() % 0x7FFFFFFF; break;
             }
+            last_cp = cp;
             char enc[8];
             size_t n = ref_utf8(cp, enc);
             for (int attempt = 0; attempt < 2; ++attempt)
